@@ -660,7 +660,12 @@ def least_right_singular_vectors(
     V0 = V[:, sort_indexes[0:n]]
     V1 = V[:, sort_indexes[n:]]
 
-    return V0, V1, S[sort_indexes[n:]]
+    # A wide matrix has fewer singular values than right singular vectors:
+    # the vectors spanning its null space have singular value zero.
+    S_all = np.zeros(V.shape[0], dtype=S.dtype)
+    S_all[:S.size] = S
+
+    return V0, V1, S_all[sort_indexes[n:]]
 
 
 # New versions of numpy already have this method
